@@ -126,6 +126,60 @@ def l1_chunk(args):
     return n, nontriv, bad[:30]
 
 
+def l1_history_chunk(args):
+    """two clusters in a row through ONE storage object (as the collector uses it: forward, reset, go on): what the storage hands out
+       for the second cluster must be what a fresh storage hands out for it. The second cluster is the first argument shifted behind the
+       first one by a gap of 1..bin bases, so that both can share a coverage bin"""
+    pairs, consts = args
+    import src.alignment_processor as AP
+    AP.AbstractAlignmentStorage.COVERAGE_BIN = consts["bin"]
+    AP.InMemoryAlignmentStorage.COVERAGE_BIN = consts["bin"]
+    AP.AlignmentCollector.MAX_REGION_LEN = consts["maxlen"]
+    AP.AlignmentCollector.MIN_READS_TO_SPLIT = consts["minreads"]
+    AP.AlignmentCollector.REL_COV_VALLEY = consts["valley"]
+    bad = []
+    n = 0
+
+    def handed_out(storage):
+        regs = AP.AlignmentCollector.split_coverage_regions(storage.region, storage)
+        if len(regs) == 1:
+            return regs, [sorted(a.idx for _, a in storage.get_alignments())]
+        return regs, [sorted(a.idx for _, a in storage.get_alignments(r)) for r in regs]
+    for cl1, cl2, gap in pairs:
+        n += 1
+        end1 = max(s + ln for s, ln in cl1)
+        shift = end1 + gap - cl2[0][0]
+        a1 = [Aln(s, ln, i) for i, (s, ln) in enumerate(cl1)]
+        a2 = [Aln(s + shift, ln, 100 + i) for i, (s, ln) in enumerate(cl2)]
+        for name in ("memory", "bam"):
+            def make():
+                if name == "memory":
+                    return AP.InMemoryAlignmentStorage()
+                return AP.BAMAlignmentStorage(SimpleNamespace(bam_pairs=[(FakeBam(a1 + a2), "x.bam")], chr_id="chr1"))
+            try:
+                st = make()
+                for a in a1:
+                    st.add_alignment(0, a)
+                handed_out(st)
+                if not st.alignment_is_not_adjacent(a2[0]):
+                    continue                      # the gap closed (0-based / 1-based conventions): one cluster, not this level's business
+                st.reset()
+                for a in a2:
+                    st.add_alignment(0, a)
+                got = handed_out(st)
+                fresh = make()
+                for a in a2:
+                    fresh.add_alignment(0, a)
+                exp = handed_out(fresh)
+            except Exception as e:  # noqa
+                bad.append(("history-exception:" + name, [cl1, cl2, gap], repr(e)))
+                continue
+            if got != exp:
+                bad.append(("history-dependent:" + name, [cl1, cl2, gap], "second cluster %s after cluster %s (gap %d): regions / alignments %s, a "
+                            "fresh storage gives %s" % ([(a.reference_start, a.reference_end) for a in a2], cl1, gap, got, exp)))
+    return n, bad[:20]
+
+
 # ------------------------------------------------------------------------------------------------ L3 pipeline
 def pileup_world(kind, param, annotated):
     """real constants: COVERAGE_BIN 256, MAX_REGION_LEN 32768, MIN_READS_TO_SPLIT 1024"""
@@ -536,6 +590,20 @@ def run(ctx):
             for kind, cl, msg in bad:
                 ctx.violation("l1:" + kind, "constants %s, cluster (start,len) %s: %s" % (c, cl, msg), {"cluster": cl, "consts": c})
     ctx.note("L1 cluster evaluations: %d, of which split into >=2 regions: %d" % (total, nontriv))
+    # histories: every pair of clusters of <= 3 alignments from a coarser grid, every gap up to the bin size
+    small = clusters(3, 8, (1, 5, 18))
+    if quick:
+        pairs = [(c1, c2, g) for c1 in small[::40] for c2 in small[::3] for g in (1, 3)]
+    else:
+        pairs = [(c1, c2, g) for c1 in small[::3] for c2 in small for g in (1, 2, 3, 4)]
+    nh = 0
+    for c in consts[:2]:
+        for n_, bad in core.pmap(l1_history_chunk, [(ch, c) for ch in core.chunks(pairs, core.NCPU * 2)]):
+            nh += n_
+            for kind, case_, msg in bad:
+                ctx.violation("l1:" + kind, "constants %s: %s" % (c, msg), {"history": case_, "consts": c})
+    ctx.note("L1 histories (two clusters through one storage): %d" % nh)
+    total += nh
     jobs = []
     offsets = (-1, 0, 1) if quick else (-2, -1, 0, 1, 2, 100, 255)
     for annotated in (1, 0):
